@@ -147,7 +147,7 @@ theorem scheme_ok {root : Nat → Nat → Nat} (hr : RootOk root) :
         rw [hk]
         simp only [Scheme.WF, computeModifiers]
         refine ⟨by simp [hfatlen]; omega, by simp [hfatl, hregl], ?_, ?_, ?_⟩
-        · simp [sum_replicate_nat, Nat.add_comm]
+        · simp [Nat.add_comm]
         · have := div_mod_split n r (by omega)
           rw [Nat.add_comm] at this
           rw [this]; exact hn
@@ -156,5 +156,281 @@ theorem scheme_ok {root : Nat → Nat → Nat} (hr : RootOk root) :
           rcases List.mem_append.1 hc with h | h
           · exact hfatw c h
           · rw [(List.mem_replicate.1 h).2]; exact hregw
+
+/-! ## Split positions -/
+
+section split
+variable (total den A : Nat)
+
+theorem specFrom_skip (pre rest : List Nat) (i s : Nat)
+    (h : (s + pre.sum) * den ≤ total * A) :
+    specFrom total den A (pre ++ rest) i s = specFrom total den A rest (i + pre.length) (s + pre.sum) := by
+  induction pre generalizing i s with
+  | nil => simp
+  | cons w pre ih =>
+    have h1 : (s + w) * den ≤ total * A := by
+      refine Nat.le_trans (Nat.mul_le_mul_right den ?_) h
+      simp only [List.sum_cons]; omega
+    have h2 : (s + w + pre.sum) * den ≤ total * A := by
+      simpa [List.sum_cons, Nat.add_assoc] using h
+    simp only [List.cons_append, specFrom, h1, if_true]
+    rw [ih (i + 1) (s + w) h2]
+    simp only [List.length_cons, List.sum_cons]
+    congr 1 <;> omega
+
+theorem refine_guarded (rest : List Nat) (i s : Nat) :
+    refine {} total den A rest i s = some (specFrom total den A rest i s) := by
+  induction rest generalizing i s with
+  | nil => simp [refine, specFrom]
+  | cons w rest ih =>
+    simp only [refine, specFrom]
+    split
+    · exact ih _ _
+    · rfl
+
+/-- Bounds and the defining property of `specFrom`. -/
+theorem specFrom_spec (rest : List Nat) (i s : Nat) :
+    i ≤ specFrom total den A rest i s ∧ specFrom total den A rest i s ≤ i + rest.length ∧
+    (∀ t, i + t < specFrom total den A rest i s → (s + (rest.take (t + 1)).sum) * den ≤ total * A) ∧
+    (specFrom total den A rest i s < i + rest.length →
+      total * A < (s + (rest.take (specFrom total den A rest i s - i + 1)).sum) * den) := by
+  induction rest generalizing i s with
+  | nil =>
+    simp only [specFrom, List.length_nil]
+    exact ⟨Nat.le_refl _, by omega, fun t ht => by omega, fun h => by omega⟩
+  | cons w rest ih =>
+    simp only [specFrom]
+    split
+    · next hle =>
+      obtain ⟨h1, h2, h3, h4⟩ := ih (i + 1) (s + w)
+      refine ⟨by omega, by simp only [List.length_cons]; omega, ?_, ?_⟩
+      · intro t ht
+        cases t with
+        | zero => simpa using hle
+        | succ t =>
+          have := h3 t (by omega)
+          simpa [List.take_succ_cons, List.sum_cons, Nat.add_assoc] using this
+      · intro hlt
+        have := h4 (by simp only [List.length_cons] at hlt; omega)
+        have he : specFrom total den A rest (i + 1) (s + w) - i + 1
+            = (specFrom total den A rest (i + 1) (s + w) - (i + 1) + 1) + 1 := by omega
+        rw [he, List.take_succ_cons, List.sum_cons]
+        simpa [Nat.add_assoc] using this
+    · next hgt =>
+      refine ⟨Nat.le_refl _, by omega, fun t ht => by omega, fun _ => ?_⟩
+      simp only [Nat.sub_self, Nat.zero_add, List.take_succ_cons, List.take_zero, List.sum_cons,
+        List.sum_nil, Nat.add_zero]
+      omega
+
+end split
+
+/-- Prefix sum of the first `k` weights. -/
+def pre (sw : List Nat) (k : Nat) : Nat := (sw.take k).sum
+
+theorem pre_add (sw : List Nat) (p c : Nat) :
+    pre sw (p + c) = pre sw p + ((sw.drop p).take c).sum := by
+  unfold pre
+  rw [List.take_add, List.sum_append]
+
+theorem pre_mono (sw : List Nat) {a b : Nat} (h : a ≤ b) : pre sw a ≤ pre sw b := by
+  obtain ⟨c, rfl⟩ := Nat.exists_eq_add_of_le h
+  rw [pre_add]; omega
+
+theorem pre_succ_le (sw : List Nat) (wmax : Nat) (hw : ∀ w ∈ sw, w ≤ wmax) (k : Nat) :
+    pre sw (k + 1) ≤ pre sw k + wmax := by
+  rw [pre_add]
+  cases h : sw.drop k with
+  | nil => simp
+  | cons w r =>
+    have : w ∈ sw := List.mem_of_mem_drop (h ▸ List.mem_cons_self)
+    have := hw w this
+    simp; omega
+
+theorem pre_length (sw : List Nat) : pre sw sw.length = sw.sum := by
+  simp [pre]
+
+/-- `split_index_spec` in terms of prefix sums. -/
+theorem specIdx_spec (total den A : Nat) (sw : List Nat) :
+    specIdx total den A sw ≤ sw.length ∧
+    (∀ t, t < specIdx total den A sw → pre sw (t + 1) * den ≤ total * A) ∧
+    (specIdx total den A sw < sw.length → total * A < pre sw (specIdx total den A sw + 1) * den) := by
+  obtain ⟨_, h2, h3, h4⟩ := specFrom_spec total den A sw 0 0
+  unfold specIdx
+  refine ⟨by simpa using h2, ?_, ?_⟩
+  · intro t ht
+    have := h3 t (by simpa using ht)
+    simpa [pre] using this
+  · intro hlt
+    have := h4 (by simpa using hlt)
+    simpa [pre] using this
+
+theorem specIdx_mono (total den : Nat) (sw : List Nat) {A A' : Nat} (h : A ≤ A') :
+    specIdx total den A sw ≤ specIdx total den A' sw := by
+  obtain ⟨h1, h2, h3⟩ := specIdx_spec total den A sw
+  obtain ⟨h1', h2', h3'⟩ := specIdx_spec total den A' sw
+  refine Nat.le_of_not_lt fun hlt => ?_
+  have ha := h3' (by omega)
+  have hb := h2 _ hlt
+  have : total * A ≤ total * A' := Nat.mul_le_mul_left _ h
+  omega
+
+/-- A scan entry `(idx, sum)` from which the refinement loop finds the specified index. -/
+def Good (sw : List Nat) (total den A : Nat) (e : Nat × Nat) : Prop :=
+  e.1 ≤ sw.length ∧ e.2 = pre sw e.1 ∧ e.2 * den ≤ total * A
+
+theorem good_refine {sw : List Nat} {total den A : Nat} {e : Nat × Nat} (h : Good sw total den A e) :
+    refine {} total den A (sw.drop e.1) e.1 e.2 = some (specIdx total den A sw) := by
+  obtain ⟨h1, h2, h3⟩ := h
+  rw [refine_guarded, specIdx]
+  have h3' : (0 + (sw.take e.1).sum) * den ≤ total * A := by
+    rw [h2, pre] at h3; simpa using h3
+  have := specFrom_skip total den A (sw.take e.1) (sw.drop e.1) 0 0 h3'
+  rw [List.take_append_drop] at this
+  rw [this]
+  simp only [Nat.zero_add, List.length_take]
+  rw [Nat.min_eq_left h1, h2, pre]
+
+/-- Pointwise relation of two lists of equal length (core has no `All₂`). -/
+inductive All₂ {α β} (R : α → β → Prop) : List α → List β → Prop
+  | nil : All₂ R [] []
+  | cons {a b as bs} : R a b → All₂ R as bs → All₂ R (a :: as) (b :: bs)
+
+/-- Relation between the remaining blocks and the position in the slab. -/
+def BlocksAt (sw : List Nat) (chunks : List Nat) (pos : Nat) (bs : List (Nat × Nat)) (cur : Nat) : Prop :=
+  chunks.sum + pos = sw.length ∧ bs = mkBlocks chunks (sw.drop pos) pos ∧ cur = pre sw pos
+
+theorem scanInner_spec (sw : List Nat) (total den A : Nat) :
+    ∀ chunks pos bs cur, BlocksAt sw chunks pos bs cur → cur * den ≤ total * A →
+      ∃ e chunks' pos' bs' cur', scanInner {} sw.length total den A bs cur = some (e, bs', cur') ∧
+        Good sw total den A e ∧ BlocksAt sw chunks' pos' bs' cur' := by
+  intro chunks
+  induction chunks with
+  | nil =>
+    intro pos bs cur ⟨h1, h2, h3⟩ hle
+    simp only [List.sum_nil, Nat.zero_add] at h1
+    subst h1
+    simp only [mkBlocks] at h2
+    subst h2
+    refine ⟨(sw.length, cur), [], sw.length, [], cur, by simp [scanInner], ⟨Nat.le_refl _, h3, hle⟩, ?_⟩
+    exact ⟨by simp, by simp [mkBlocks], h3⟩
+  | cons c cs ih =>
+    intro pos bs cur ⟨h1, h2, h3⟩ hle
+    simp only [List.sum_cons] at h1
+    simp only [mkBlocks] at h2
+    subst h2
+    have hnext : BlocksAt sw cs (pos + c) (mkBlocks cs ((sw.drop pos).drop c) (pos + c))
+        (cur + ((sw.drop pos).take c).sum) := by
+      refine ⟨by omega, by rw [List.drop_drop], ?_⟩
+      rw [pre_add, h3]
+    simp only [scanInner]
+    split
+    · next hex =>
+      have hc : c ≠ 0 := by
+        intro h0; subst h0; simp at hex; omega
+      refine ⟨(pos, cur), cs, pos + c, _, _, by simp [hc], ⟨by omega, h3, hle⟩, hnext⟩
+    · next hnex =>
+      exact ih _ _ _ hnext (by omega)
+
+theorem scanOuter_spec (sw : List Nat) (total den : Nat) :
+    ∀ As chunks pos bs cur acc, BlocksAt sw chunks pos bs cur → As.Pairwise (· ≤ ·) →
+      (acc = [] → cur = 0) →
+      (∀ last, acc.head? = some last → last.1 ≤ sw.length ∧ last.2 = pre sw last.1 ∧
+          ∀ A ∈ As, last.2 * den ≤ total * A) →
+      ∃ es, scanOuter {} sw.length total den As bs cur acc = some (acc.reverse ++ es) ∧
+        All₂ (fun e A => Good sw total den A e) es As := by
+  intro As
+  induction As with
+  | nil =>
+    intro chunks pos bs cur acc _ _ _ _
+    exact ⟨[], by simp [scanOuter], .nil⟩
+  | cons A As ih =>
+    intro chunks pos bs cur acc hb hs hacc hlast
+    have hs' : As.Pairwise (· ≤ ·) := (List.pairwise_cons.1 hs).2
+    have hA : ∀ A' ∈ As, A ≤ A' := (List.pairwise_cons.1 hs).1
+    simp only [scanOuter]
+    split
+    · next hex =>
+      cases acc with
+      | nil => simp [hacc rfl] at hex
+      | cons last acc' =>
+        obtain ⟨hl1, hl2, hl3⟩ := hlast last rfl
+        obtain ⟨es, he, hg⟩ := ih chunks pos bs cur (last :: last :: acc') hb hs' (by simp)
+          (by
+            intro l hl
+            simp only [List.head?_cons, Option.some.injEq] at hl
+            subst hl
+            exact ⟨hl1, hl2, fun A' hA' => hl3 A' (by simp [hA'])⟩)
+        refine ⟨last :: es, ?_, .cons ⟨hl1, hl2, hl3 A (by simp)⟩ hg⟩
+        simp [he]
+    · next hnex =>
+      obtain ⟨e, chunks', pos', bs', cur', hsi, hgood, hb'⟩ :=
+        scanInner_spec sw total den A chunks pos bs cur hb (by omega)
+      obtain ⟨es, he, hg⟩ := ih chunks' pos' bs' cur' (e :: acc) hb' hs' (by simp)
+        (by
+          intro l hl
+          simp only [List.head?_cons, Option.some.injEq] at hl
+          subst hl
+          refine ⟨hgood.1, hgood.2.1, fun A' hA' => ?_⟩
+          have : total * A ≤ total * A' := Nat.mul_le_mul_left _ (hA A' hA')
+          exact Nat.le_trans hgood.2.2 this)
+      refine ⟨e :: es, ?_, .cons hgood hg⟩
+      simp [hsi, he]
+
+theorem refineAll_spec (sw : List Nat) (total den : Nat) :
+    ∀ es As, All₂ (fun e A => Good sw total den A e) es As →
+      refineAll {} total den sw es As = some (As.map (fun A => specIdx total den A sw)) := by
+  intro es As h
+  induction h with
+  | nil => simp [refineAll]
+  | cons hg _ ih => simp [refineAll, good_refine hg, ih]
+
+theorem cumul_ge (l : List Nat) (a : Nat) : ∀ x ∈ cumul l a, a ≤ x := by
+  induction l generalizing a with
+  | nil => simp [cumul]
+  | cons b l ih =>
+    intro x hx
+    simp only [cumul, List.mem_cons] at hx
+    rcases hx with rfl | hx
+    · omega
+    · have := ih _ x hx; omega
+
+theorem cumul_sorted (l : List Nat) (a : Nat) : (cumul l a).Pairwise (· ≤ ·) := by
+  induction l generalizing a with
+  | nil => simp [cumul]
+  | cons b l ih =>
+    simp only [cumul, List.pairwise_cons]
+    exact ⟨cumul_ge l _, ih _⟩
+
+theorem cumul_length (l : List Nat) (a : Nat) : (cumul l a).length = l.length := by
+  induction l generalizing a with
+  | nil => simp [cumul]
+  | cons b l ih => simp [cumul, ih]
+
+/-- The slab's weights in the order of the permutation. -/
+def slabW (ws perm : List Nat) : List Nat := perm.map (fun i => ws.getD i 0)
+
+/-- `compute_split_positions` (guarded) computes `specIdx` of every threshold, whatever
+the chunking of the parallel scan. -/
+theorem splitPositions_eq (chunks ws perm mods : List Nat) (den : Nat)
+    (hm : mods ≠ []) (hp : ∀ i ∈ perm, i < ws.length) (hc : chunks.sum = perm.length) :
+    splitPositions {} chunks ws perm mods den =
+      some ((cumul mods.dropLast 0).map (fun A => specIdx (slabW ws perm).sum den A (slabW ws perm))) := by
+  cases mods with
+  | nil => exact absurd rfl hm
+  | cons m ms =>
+    have hany : perm.any (fun i => decide (ws.length ≤ i)) = false := by
+      rw [List.any_eq_false]
+      intro i hi
+      have := hp i hi
+      simp; omega
+    simp only [splitPositions, hany]
+    have hb : BlocksAt (slabW ws perm) chunks 0 (mkBlocks chunks (slabW ws perm) 0) 0 :=
+      ⟨by simp [slabW, hc], by simp, by simp [pre]⟩
+    obtain ⟨es, he, hg⟩ := scanOuter_spec (slabW ws perm) (slabW ws perm).sum den
+      (cumul (m :: ms).dropLast 0) chunks 0 _ 0 [] hb (cumul_sorted _ _) (by simp) (by simp)
+    simp only [List.reverse_nil, List.nil_append] at he
+    simp only [slabW] at he hg ⊢
+    simp only [Bool.false_eq_true, if_false, he]
+    exact refineAll_spec _ _ _ _ _ hg
 
 end Coupe.MultiJagged
